@@ -1,7 +1,9 @@
 package props
 
 import (
+	"bytes"
 	"context"
+	"encoding/hex"
 	"fmt"
 	"math/big"
 
@@ -286,11 +288,12 @@ func c11ErrCheck(c c11Err) (fs []rep.Finding) {
 
 func init() {
 	p := register(&Prop{ID: "C11", Level: "exploration",
-		Rule: "exhaustive: (accounting) every multiset-ordered choice of <=2 (quick) / <=3 (thorough) outputs from 13 script kinds (P2PKH, OP_RETURN alone/empty/1/75/76-byte, OP_FALSE OP_RETURN with 65536-byte payload and bare, `00`, `00 51 6a`, empty, OP_RETURN not first) x inputs 0..3 x signing state (none/all/first/short scripts) x 11 fee quotes (independent std/data rates incl. >1 sat/byte, non-dyadic rates, zero) x in-out placed at {fee-1, fee, fee+1, out>in, equal, ample} relative to the big-integer reference fee of the actual and of the estimated size: TotalBytes=len(bytes)=Std+Data, fee = floor+floor, predicates exact; (signed) 8 keys x nIn 1..3 x nOut 0..2 x every subset of inputs pre-signed x plain/inscription spent script: EstimateSize >= size after FillAllInputs; (counts) 252/253/254 outputs with 0..2 inputs and 252/253/254 inputs with 0..2 outputs x quotes x fee relations; (errors) every position x 7 missing/unsupported spent scripts x signed/unsigned: every estimator returns an error. distinct_nontrivial = distinct (tx bytes, quote, relation) triples",
+		Rule: "exhaustive: (accounting) every multiset-ordered choice of <=2 (quick) / <=3 (thorough) outputs from 13 script kinds (P2PKH, OP_RETURN alone/empty/1/75/76-byte, OP_FALSE OP_RETURN with 65536-byte payload and bare, `00`, `00 51 6a`, empty, OP_RETURN not first) x inputs 0..3 x signing state (none/all/first/short scripts) x 11 fee quotes (independent std/data rates incl. >1 sat/byte, non-dyadic rates, zero) x in-out placed at {fee-1, fee, fee+1, out>in, equal, ample} relative to the big-integer reference fee of the actual and of the estimated size: TotalBytes=len(bytes)=Std+Data, fee = floor+floor, predicates exact; (signed) 8 keys x nIn 1..3 x nOut 0..2 x every subset of inputs pre-signed x plain/inscription spent script: EstimateSize >= size after FillAllInputs; (counts) 252/253/254 outputs with 0..2 inputs and 252/253/254 inputs with 0..2 outputs x quotes x fee relations; (errors) every position x 7 missing/unsupported spent scripts x signed/unsigned: every estimator returns an error; (quote forms) the same quotes assembled through 5 other call sequences (Fee objects labelled with the other type, unlabelled, through FeeQuotes.UpdateMinerFees, update of existing entries, relabelled copy); (builders) outputs built by AddOpReturnOutput / AddOpReturnPartsOutput / CreateOpReturnOutput for item lengths {1,2,75,76,255,256,65535,65536} (single and pairs) and AddHashPuzzleOutput: script equals the reference layout and is counted as data / standard bytes accordingly. distinct_nontrivial = distinct (tx bytes, quote, relation) triples",
 	})
 	sA := NewSpace(p, "accounting", c11Check)
 	sS := NewSpace(p, "signed", c11SignCheck)
 	sE := NewSpace(p, "errors", c11ErrCheck)
+	sB := NewSpace(p, "builders", c11BuilderCheck)
 	p.Run = func(r *rep.Run, thorough bool) {
 		var outsets [][]int
 		outsets = append(outsets, []int{})
@@ -418,5 +421,84 @@ func init() {
 			return fs
 		}}).Slice(r, ec)
 		r.Sample("errors", ec[3])
+		var bcs []c11Builder
+		lens := []int{1, 2, 75, 76, 255, 256, 65535, 65536}
+		for nin := 0; nin <= 1; nin++ {
+			for _, a := range lens {
+				bcs = append(bcs, c11Builder{Lens: []int{a}, Via: 0, NIn: nin}, c11Builder{Lens: []int{a}, Via: 1, NIn: nin}, c11Builder{Lens: []int{a}, Via: 2, NIn: nin})
+				for _, b := range lens {
+					bcs = append(bcs, c11Builder{Lens: []int{a, b}, Via: 1, NIn: nin}, c11Builder{Lens: []int{b, a, 3}, Via: 2, NIn: nin})
+				}
+			}
+			bcs = append(bcs, c11Builder{Via: 3, NIn: nin})
+		}
+		(&Space[c11Builder]{P: p, Name: sB.Name, Check: func(c c11Builder) []rep.Finding {
+			fs := c11BuilderCheck(c)
+			if len(fs) == 0 {
+				r.Distinct("b", fmt.Sprint(c))
+			}
+			return fs
+		}}).Slice(r, bcs)
+		r.Note("builder_cases", len(bcs))
 	}
+}
+
+// ---- outputs built by the library's own builders ----
+
+type c11Builder struct {
+	Lens []int `json:"data_lens"`
+	Via  int   `json:"via"` // 0 AddOpReturnOutput (one item), 1 AddOpReturnPartsOutput, 2 CreateOpReturnOutput+AddOutput, 3 AddHashPuzzleOutput
+	NIn  int   `json:"nin"`
+}
+
+func c11BuilderCheck(c c11Builder) (fs []rep.Finding) {
+	tx := bt.NewTx()
+	ref := &txref.Tx{Version: 1}
+	for i := 0; i < c.NIn; i++ {
+		in := p2pkhIn(i, 1000)
+		ref.Ins = append(ref.Ins, in)
+	}
+	tx = toLib(ref)
+	var parts [][]byte
+	want := []byte{0x00, 0x6a}
+	for i, l := range c.Lens {
+		d := fill(l, byte(0x30+i))
+		parts = append(parts, d)
+		want = append(append(want, refPrefix(l)...), d...)
+	}
+	var err error
+	switch c.Via {
+	case 0:
+		err = tx.AddOpReturnOutput(parts[0])
+	case 1:
+		err = tx.AddOpReturnPartsOutput(parts)
+	case 2:
+		var o *bt.Output
+		if o, err = bt.CreateOpReturnOutput(parts); err == nil {
+			tx.AddOutput(o)
+		}
+	case 3:
+		pkh := fill(20, 0x55)
+		err = tx.AddHashPuzzleOutput("secret", hex.EncodeToString(pkh), 700)
+		want = bytesJoin([]byte{0xa9, 0x14}, refHash160([]byte("secret")), []byte{0x88, 0x76, 0xa9, 0x14}, pkh, []byte{0x88, 0xac})
+	}
+	if err != nil {
+		return append(fs, rep.F("builder|error", err.Error()))
+	}
+	if len(tx.Outputs) != 1 || !bytes.Equal(scriptBytes(tx.Outputs[0].LockingScript), want) {
+		return append(fs, rep.F(fmt.Sprintf("builder|script|via=%d", c.Via), "the output built by the library is not OP_FALSE OP_RETURN followed by shortest-form pushes of the items (or the hash-puzzle template)"))
+	}
+	ref.Outs = []txref.Out{{Sats: tx.Outputs[0].Satoshis, Script: want}}
+	total, std, data := refSizes(ref)
+	sz := tx.SizeWithTypes()
+	if sz.TotalBytes != total || sz.TotalStdBytes != std || sz.TotalDataBytes != data || uint64(tx.Size()) != total {
+		fs = append(fs, rep.F(fmt.Sprintf("builder|size-partition|via=%d", c.Via), fmt.Sprintf("got %d/%d/%d want %d/%d/%d", sz.TotalBytes, sz.TotalStdBytes, sz.TotalDataBytes, total, std, data)))
+	}
+	if c.Via != 3 && (data != uint64(len(want)) || !tx.HasDataOutputs() || !tx.Outputs[0].LockingScript.IsData()) {
+		fs = append(fs, rep.F("builder|not-a-data-output", "an OP_RETURN output built by the library is not counted as data"))
+	}
+	if c.Via == 3 && (data != 0 || tx.HasDataOutputs()) {
+		fs = append(fs, rep.F("builder|hash-puzzle-counted-as-data", "a hash-puzzle output is counted as data"))
+	}
+	return
 }
